@@ -9,7 +9,8 @@ ASSUMPTIONS = [
     'Spec.didSegs / Spec.ridSegs are my transcription of ISO 14229-1:2006 Annex C.1 / F.1 (names as the library spells them)',
     'Dtc.Format.get_name returning None for an unknown format is read as that table\'s documented fallback (Optional[str]) (DESIGN D7)',
 ]
-RULE = ('exhaustive: every identifier 0..0xFFFF for the two 16-bit lookups, every value 0..0xFF of every BaseSubfunction table, '
+RULE = ('iso_consts: every named sub-function constant of the standard (Spec.isoSubfn, read from the Lean driver) must be defined by the library with the ISO value and get_name must answer every ISO value with that name; '
+        'exhaustive: every identifier 0..0xFFFF for the two 16-bit lookups, every value 0..0xFF of every BaseSubfunction table, '
         'ResponseCode and Dtc.Format; real lookup vs Lean Spec lookup (udsdrv). distinct = distinct (table, value); non-trivial = all')
 
 
@@ -94,4 +95,9 @@ def suite_names(ctx):
     return s
 
 
-SUITES = [suite_names]
+def suite_iso(ctx):
+    from .. import isoconst
+    return isoconst.suite_iso(ctx)
+
+
+SUITES = [suite_names, suite_iso]
